@@ -105,6 +105,27 @@ def hostile_requests(TG, rnd, tier, channels=("dismain", "parse", "loadasm")):
             w += [(5 << 16) | g.opv["Constant"], 1, 3, 7, 8]
             for ch in channels:
                 reqs.append(f"{ch} {instgen.to_bytes(w).hex()}")
+    # extended instructions: every recognised and unrecognised set name x instruction numbers at and beyond the ends of the
+    # tables (0 is a declared OpenCL.std number and an undeclared GLSL.std.450 one), with and without arguments
+    E_ = {r["name"]: r for r in g.core}
+    idr = g.vix["IdRef"]
+    next_ = 0
+    for setname in (b"GLSL.std.450", b"OpenCL.std", b"GLSL.std.45", b""):
+        imp = instgen.Inst(g.opv["ExtInstImport"], "ExtInstImport", None, 1, [instgen.Op("s", g.vix["LiteralString"], list(setname))])
+        for num in (0, 1, 2, 80, 81, 82, 203, 204, 205, 255, 256, 65535, 65536, 65537, 0x7fffffff, 0x80000000, 0xffffffff):
+            for nargs in (0, 2):
+                x = instgen.Inst(g.opv["ExtInst"], "ExtInst", 2, 5, [instgen.Op("w", idr, 1), instgen.Op("w", g.vix["LiteralExtInstInteger"], num)] +
+                                 [instgen.Op("w", idr, 7 + k) for k in range(nargs)])
+                body = [imp, instgen.Inst(g.opv["Function"], "Function", 2, 3, [instgen.Op("w", g.vix["FunctionControl"], 0), instgen.Op("w", idr, 2)]),
+                        instgen.Inst(g.opv["Label"], "Label", None, 4, []), x, instgen.Inst(g.opv["Return"], "Return", None, None, []),
+                        instgen.Inst(g.opv["FunctionEnd"], "FunctionEnd", None, None, [])]
+                w = instgen.header(bound=20)
+                for i_ in body:
+                    w += i_.words()
+                for ch in ("dismain", "loadasm"):
+                    reqs.append(f"{ch} {instgen.to_bytes(w).hex()}")
+                next_ += 1
+    stats["extended instructions at the table ends"] = next_
     # the disassembler tracks numeric types over the whole section, the parser only those seen so far: a constant *before* its
     # type, and a type id declared twice with different widths / signedness / kind (the later declaration wins when printing)
     norder = 0
